@@ -140,7 +140,8 @@ def run(ctx):
     tlc.check_coverage(res, ["Feed", "StepPreamble", "StepPart", "StepData", "StepEpilogue"])
     # witness: the original hold-back rule must break the buffering bound
     KW = dict(K, HoldFix=False, Limits=frozenset({M.Rec(parts=M.UNL, mem=M.UNL)}))
-    tlc.write_mc(wd, "MC_MultipartOrig", "Multipart", constants=KW, cfg_lines=cfg)
+    tlc.write_mc(wd, "MC_MultipartOrig", "Multipart", constants=KW,
+                 cfg_lines=["SPECIFICATION Spec", "CHECK_DEADLOCK FALSE", "INVARIANT BoundedHold"])
     wres = tlc.run_tlc(wd, "MC_MultipartOrig", coverage=False, heap="10g")
     if wres.violated != "BoundedHold":
         raise common.MachineryError("witness failed: HoldFix=FALSE does not violate BoundedHold (%s)" % wres.violated)
